@@ -36,10 +36,20 @@ struct hobj {
 	h_conv_t *source;
 	void *impl;
 };
-enum { K_AXIS, K_LINE, K_TEXT, K_GRAPH, K_WORLD };
+/* optional hook for operations only one harness knows (mpt++ object operations): returns 0 when the
+ * operation is not handled, else prints the result token and advances *t past its arguments */
+typedef int (*h_xop_fn)(struct hobj *a, struct hobj *b, const char *op, int ntok, char **tok, int *t);
+static h_xop_fn h_xop = 0;
 
-static int h_kind(const char *s)
+enum { K_AXIS, K_LINE, K_TEXT, K_GRAPH, K_WORLD, K_LAYOUT };
+
+static int h_kind(const char *s0)
 {
+	char s[32];
+	char *c;
+	strncpy(s, s0, sizeof(s) - 1); s[sizeof(s) - 1] = 0;
+	if ((c = strchr(s, ':'))) *c = 0;	/* constructor argument behind ':' */
+	if (!strcmp(s, "layout")) return K_LAYOUT;
 	if (!strcmp(s, "axis")) return K_AXIS;
 	if (!strcmp(s, "line")) return K_LINE;
 	if (!strcmp(s, "text")) return K_TEXT;
@@ -276,6 +286,7 @@ static void h_run_object_case(int ntok, char **tok, struct hobj *a, struct hobj 
 			if (id) mpt_identifier_set(id, 0, 0);
 			free(name);
 		}
+		else if (h_xop && h_xop(a, b, op, ntok, tok, &t)) { }
 		else { vh_tok("?%s", op); break; }
 		vh_add("|");
 		h_dump(a);
